@@ -6,7 +6,8 @@
 (*   drift:<clause>     the code did something the spec action does not predict       *)
 (*                                                                                    *)
 (* Events of one trace, in this order (the driver always writes all of them):         *)
-(*   Begin   names [[char]], option [[char]], wf   the system: its series in the solver's  *)
+(*   Begin   names [[char]], kinds [kind], option [[char]], wf                           *)
+(*                                          the system: its series in the solver's      *)
 (*                                          order, and the exclusion option as handed   *)
 (*                                          to the solver; which series the loop skips  *)
 (*                                          is decided HERE (SkippedSet), not by the    *)
@@ -39,9 +40,9 @@ SetOfSeq(s) == { s[i] : i \in 1..Len(s) }
 
 Untouched(e) == IF e.same_eq /\ e.same_exo /\ e.same_hor THEN Ok ELSE P("C15_LeavesSolverUntouched")
 
-Reset(nms, opt, w) ==
-    /\ phase' = "idle" /\ n' = Len(nms) /\ names' = nms /\ option' = opt /\ wf' = w /\ sid' = 0
-    /\ excluded' = SkippedSet(nms, opt)
+Reset(nms, kds, opt, w) ==
+    /\ phase' = "idle" /\ n' = Len(nms) /\ names' = nms /\ kinds' = kds /\ option' = opt /\ wf' = w /\ sid' = 0
+    /\ excluded' = SkippedSet(nms, kds, opt)
     /\ runres' = "none" /\ cls' = << >> /\ judged' = {} /\ bad' = {} /\ exc' = ""
     /\ outer' = Outer0 /\ inner' = NoCopy
 
@@ -56,14 +57,15 @@ JudgeOutcome(e) ==
     ELSE Ok
 
 NoNames == << << "x" >> >>
-TraceInit == Setup(NoNames, {}, TRUE, 0) /\ l = 1 /\ verdict = Ok /\ unsteady = 0
+NoKinds == << "solved" >>
+TraceInit == Setup(NoNames, NoKinds, {}, TRUE, 0) /\ l = 1 /\ verdict = Ok /\ unsteady = 0
 
 TraceNext ==
     /\ l <= Len(Log)
     /\ l' = l + 1
     /\ LET e == Log[l] IN
        \/ /\ e.ev = "Begin"
-          /\ Reset(e.names, SetOfSeq(e.option), e.wf)
+          /\ Reset(e.names, e.kinds, SetOfSeq(e.option), e.wf)
           /\ verdict' = Ok /\ unsteady' = 0
        \/ /\ e.ev = "Copy"
           /\ Copy
@@ -98,7 +100,7 @@ TraceNext ==
           /\ UNCHANGED unsteady
        \/ /\ e.ev = "End"
           /\ PrintT(<< "VERDICT", e.tid, verdict.kind \o ":" \o verdict.clause >>)
-          /\ Reset(NoNames, {}, TRUE)
+          /\ Reset(NoNames, NoKinds, {}, TRUE)
           /\ verdict' = Ok /\ unsteady' = 0
 
 TraceSpec == TraceInit /\ [][TraceNext]_tvars
